@@ -19,7 +19,7 @@ Tags == <<"0", "1", "2", "4", "5", "6", "7", "8", "9", "10", "20", "21", "99", "
 
 \* payload shapes; "child" ones embed another document
 Shapes == <<"absent", "null", "int", "flt", "str", "bool", "emptyarr", "arrnull", "arrdoc", "emptyobj", "wrongkeys",
-            "right_wrongtype", "right_null", "right_nullelem", "right_nested", "right_ok", "right_unknownname", "huge">>
+            "right_wrongtype", "right_null", "right_nullelem", "right_nested", "right_ok", "right_unknownname", "right_protoname", "huge">>
 NeedsChild(s) == s \in {"arrdoc", "right_nested"}
 
 \* the dynamic payload type each known tag promises
